@@ -123,6 +123,47 @@ func refSlice(n, start int, length int, omit bool) (int, int) {
 	return start, end
 }
 
+// c19Spellings: for a plain string input, the same filters applied to the string written as a
+// literal in the template, and applied through an apply block around the text, give what they give
+// on the context variable.
+func c19Spellings(c C19Case, ctx Ctx) error {
+	if c.X == nil || c.X.K != "str" || c.X.M != "" {
+		return nil
+	}
+	text := c.X.S
+	lit := "'" + strings.NewReplacer("\\", "\\\\", "'", "\\'").Replace(text) + "'"
+	for _, f := range []string{"length", "upper", "lower", "reverse", "capitalize", "trim", "first", "last", "slice(1, 2)", "reverse|reverse", "upper|length", "trim|length"} {
+		a, errA := evalJSON("x|"+f, ctx)
+		b, errB := evalJSON(lit+"|"+f, ctx)
+		if errA != nil || errB != nil {
+			if (errA != nil) != (errB != nil) {
+				return fmt.Errorf("x|%s and %s|%s: one fails and the other does not (%v / %v)", f, lit, f, errA, errB)
+			}
+			continue
+		}
+		if !jsonEq(a, b) {
+			return fmt.Errorf("%s|%s = %s but x|%s = %s for x = %s: a literal and a variable holding the same string differ", lit, f, showJ(b), f, showJ(a), q(text))
+		}
+	}
+	if strings.Contains(text, "{{") || strings.Contains(text, "{%") || strings.Contains(text, "{#") || strings.HasSuffix(text, "{") || strings.HasSuffix(text, "\\") {
+		return nil
+	}
+	for _, f := range []string{"upper", "lower", "reverse", "capitalize", "trim", "length"} {
+		viaFilter, err := evalText("{{ x|"+f+" }}", ctx)
+		if err != nil {
+			continue
+		}
+		viaApply, err := evalText("{% apply "+f+" %}"+text+"{% endapply %}", ctx)
+		if err != nil {
+			return fmt.Errorf("{%% apply %s %%} around %s fails (%v) although x|%s works", f, q(text), err, f)
+		}
+		if viaApply != viaFilter {
+			return fmt.Errorf("{%% apply %s %%} around the text %s gives %s, x|%s on the same text gives %s", f, q(text), q(viaApply), f, q(viaFilter))
+		}
+	}
+	return nil
+}
+
 func checkC19(c C19Case) error {
 	var ctx Ctx
 	ctx.Set("x", c.X)
@@ -448,7 +489,7 @@ func checkC19(c C19Case) error {
 	default:
 		return fmt.Errorf("unknown law %q", c.Law)
 	}
-	return nil
+	return c19Spellings(c, ctx)
 }
 
 func sign(n int) int {
@@ -498,7 +539,7 @@ func normList(v interface{}) []interface{} {
 var c19Strings = []string{"", "a", "hello", "Hello World", "  padded  ", "héllo", "éa", "日本語", "ǆemal", "straße", "İstanbul", "a\tb\nc", "MiXeD cAsE", "x", "éé", "ß", "ŉ", "ǅ", "ﬁn", "😀 smile", "tab\there", "ÀÉÎ õü", "ǰ", "ΐ",
 	// combining marks (also leading, doubled, at the end), joiners, variation selectors: a character for
 	// these filters is a code point
-	"\u0301a", "e\u0301\u0301x", "noe\u0308l", "a\u0301", "\u0301", "\u0301\u0302", "x\u200dy", "\u2764\ufe0f ok", "\U0001F468\u200d\U0001F469", "a\u0300b\u0301c\u0302"}
+	"\nline\n", "\n  indented\n  ", "\r\nx\r\n", "x\n", "\u0301a", "e\u0301\u0301x", "noe\u0308l", "a\u0301", "\u0301", "\u0301\u0302", "x\u200dy", "\u2764\ufe0f ok", "\U0001F468\u200d\U0001F469", "a\u0300b\u0301c\u0302"}
 
 func genStrDesc(t *rapid.T) *E {
 	switch rapid.IntRange(0, 3).Draw(t, "strk") {
